@@ -1,7 +1,7 @@
 #!/bin/bash
 # tools/seedtest.sh <seed-id> <worktree> <prop> [<prop>...]
 # confirms a seeded change in its scratch worktree (builds, suite passes, demo fails with / passes without),
-# then applies it to /repo, runs the listed checks (quick) and reverts /repo.
+# then runs the listed checks (quick) from a scratch copy of /verif against that worktree.
 set -u
 id=$1; wt=$2; shift 2
 export GOFLAGS=-mod=mod GOPROXY=off GOSUMDB=off
@@ -20,12 +20,16 @@ bash -c "$demo_cmd" > $out/demo_with_patch.log 2>&1; rc1=$?
 git apply -R $patch
 bash -c "$demo_cmd" > $out/demo_without_patch.log 2>&1; rc2=$?
 echo "demo exit with patch: $rc1 (want != 0); without: $rc2 (want 0)"
-cd /verif
-git -C /repo apply $patch || { echo "PATCH DOES NOT APPLY TO /repo"; exit 2; }
+# the checks run from a scratch copy of /verif against the scratch worktree with the patch applied (VERIF_REPO): /repo itself,
+# /verif/evidence and /verif/out are left alone, so several of these can run side by side
+git apply $patch || exit 2
+scratch=$(mktemp -d /tmp/sv-$id-XXXX)
+trap 'rm -rf $scratch' EXIT
+rsync -a --exclude out --exclude .git --exclude seeded /verif/ $scratch/verif/
+cd $scratch/verif
+export GOCACHE=/verif/out/gocache
 for p in "$@"; do
-  timeout 1200 bin/check $p quick > $out/check_$p.log 2>&1; rc=$?
+  VERIF_REPO=$wt timeout 1500 bin/check $p quick > $out/check_$p.log 2>&1; rc=$?
   echo "check $p quick: exit $rc  $(grep -c '^VIOLATION' $out/check_$p.log) violation lines"
   grep "^  detail" $out/check_$p.log | head -2 | cut -c1-300
 done
-git -C /repo checkout -- .
-git -C /repo status --short
